@@ -279,7 +279,18 @@ def st_node(draw, kind, depth, cfg):
         kk = len(gfi.sig(g))
         m = draw(st.integers(1, 2))
         pre = [draw(st_expr(m, 1)) for _ in range(kk)]
-        post = draw(st_expr(m + kk + 1, 1))
+        # which of (args, pre(args), inner return) the return-value map reads
+        mode = draw(st.sampled_from(["all", "all", "args", "xformed", "args+xformed", "ret"]))
+        if mode == "all":
+            post = draw(st_expr(m + kk + 1, 1))
+        elif mode == "args":
+            post = draw(st_expr(m, 1))
+        elif mode == "xformed":
+            post = _shift_vars(draw(st_expr(kk, 1)), m)
+        elif mode == "args+xformed":
+            post = draw(st_expr(m + kk, 1))
+        else:
+            post = _shift_vars(draw(st_expr(1, 1)), m + kk)
         return {"k": "dimap", "g": g, "m": m, "pre": pre, "post": post}
     raise ValueError(kind)
 
